@@ -148,11 +148,91 @@ theorem toks_modPA (m : WModPA) (hd : ∀ p ∈ m.base.ports, p.dir ≠ .undef) 
   rw [hm1, hm2, hm3, hm4, hm5]
   simp [List.append_assoc, nameT]
 
+/-! ### the pieces of a primitive with attributes and parameters -/
+
+def leafPX (lf : WLeafX) : List Piece :=
+  cellP ++ starP lf.attrs ++
+    (T "module" ++ W1 ++ N (fixName lf.base.name) ++ NL ++ mparamP lf.params ++ T "(" ++
+      List.intercalate (T ",") (lf.base.ports.map (fun p => NL ++ W4 ++ N (fixName p.name))) ++ NL ++ T ")" ++ T ";" ++ NL ++ NL) ++
+    ((lf.base.ports.map portPU).flatten ++ NL) ++
+    T "endmodule" ++ NL ++ endcellP ++ NL
+
+theorem chars_leafPX (lf : WLeafX) : pchars (leafPX lf) = (renderLeafX lf).toList := by
+  simp only [leafPX, renderLeafX, cellP, endcellP, pchars_append, pchars_cons, pchars_nil, Piece.chars, chars_T, chars_N, chars_W1, chars_NL,
+    pchars_intercalate, pchars_flatten, String.toList_append, String.toList_intercalate, toList_join, List.map_map, chars_starP,
+    chars_mparamP]
+  have h1 : "module ".toList = "module".toList ++ " ".toList := by decide
+  have h2 : "\n);\n".toList = "\n".toList ++ ")".toList ++ ";".toList ++ "\n".toList := by decide
+  have h3 : "\n\n".toList = "\n".toList ++ "\n".toList := by decide
+  have h4 : "".toList = [] := rfl
+  have h5 : "\n`endcelldefine".toList = "\n".toList ++ "`endcelldefine".toList := by decide
+  have h6 : "`endcelldefine\n".toList = "`endcelldefine".toList ++ "\n".toList := by decide
+  rw [h1, h2, h3, h4, h5, h6]
+  have hm1 : lf.base.ports.map (pchars ∘ fun p => NL ++ W4 ++ N (fixName p.name)) =
+      lf.base.ports.map (String.toList ∘ (fun s => "\n" ++ s) ∘ fun p => "    " ++ fixName p.name) := by
+    apply List.map_congr_left
+    intro p _
+    simp only [Function.comp, pchars_append, chars_NL, chars_W4, chars_T, chars_N, String.toList_append, List.append_assoc]
+  have hm2 : lf.base.ports.map (pchars ∘ portPU) = lf.base.ports.map (String.toList ∘ portLine) := by
+    apply List.map_congr_left; intro p _; exact chars_portPU p
+  rw [hm1, hm2]
+  simp [List.append_assoc, List.flatMap, Function.comp_def]
+
+/-- the tokens the lexer returns for a written primitive (block comments included) -/
+def leafToksXU (lf : WLeafX) : List String :=
+  "`celldefine" :: ((starToks lf.attrs ++ "module" :: nameT lf.base.name :: (mparamToks lf.params ++ "(" ::
+    (sepNames (lf.base.ports.map (·.name)) ++ ")" :: ";" :: (lf.base.ports.flatMap portCoreU ++ ["endmodule"])))) ++
+      ["`endcelldefine"])
+
+theorem toks_leafPX (lf : WLeafX) (hd : ∀ p ∈ lf.base.ports, p.attrs = []) : ptoks (leafPX lf) = leafToksXU lf := by
+  simp only [leafPX, leafToksXU, cellP, endcellP, ptoks_append, ptoks_cons, ptoks_nil, Piece.toks, toks_T, toks_N, toks_W1, toks_NL,
+    ptoks_intercalate, ptoks_flatten, List.append_nil, List.map_map, sepNames_eq, List.nil_append, toks_starP, toks_mparamP]
+  have hm1 : lf.base.ports.map (ptoks ∘ fun p => NL ++ W4 ++ N (fixName p.name)) =
+      lf.base.ports.map ((fun x => [nameT x]) ∘ fun p => p.name) := by
+    apply List.map_congr_left
+    intro p _
+    simp [ptoks_append, toks_NL, toks_W4, toks_T, toks_N, nameT]
+  have hm2 : (lf.base.ports.map (ptoks ∘ portPU)).flatten = lf.base.ports.flatMap portCoreU := by
+    rw [List.flatMap_def]
+    congr 1
+    apply List.map_congr_left
+    intro p hp
+    simp only [Function.comp]
+    exact toks_portPU p (hd p hp)
+  rw [hm1, hm2]
+  simp [List.append_assoc, nameT]
+
+theorem portCoreU_filter : ∀ (ports : List PDecl), (ports.flatMap portCoreU).filter notC =
+    ((ports.map (fun p => ({ p with dir := inoutD p.dir } : PDecl))).flatMap (fun p => portCore p.dir p.rng p.name)).filter notC := by
+  intro ports
+  rw [List.flatMap_map]
+  induction ports with
+  | nil => rfl
+  | cons p ps ih =>
+    simp only [List.flatMap_cons, List.filter_append, ih]
+    congr 1
+    unfold portCoreU portCore
+    cases hd : p.dir <;> simp [dirToksU, inoutD, dirTok, notC, cmtU_comment, List.filter_cons]
+
+/-- the comments removed, the tokens of a written primitive are the tokens of the module the parser returns -/
+theorem leafToksXU_filter (lf : WLeafX) (h : leafOKX (inoutifyX lf) = true) :
+    (leafToksXU lf).filter notC = leafToksX (inoutifyX lf) := by
+  have hk := leafToksX_keep (inoutifyX lf) h
+  have hall : ∀ t ∈ leafToksX (inoutifyX lf), notC t = true := by
+    intro t ht
+    have := List.all_eq_true.mp hk t ht
+    simp only [keepTok, Bool.and_eq_true] at this
+    exact this.1
+  have hid : (leafToksX (inoutifyX lf)).filter notC = leafToksX (inoutifyX lf) := List.filter_eq_self.mpr hall
+  rw [← hid]
+  unfold leafToksXU leafToksX leafCoreX inoutifyX inoutify
+  simp only [List.filter_cons, List.filter_append, List.map_map, Function.comp_def, portCoreU_filter]
+
 /-! ### the pieces of the whole file -/
 
 def anyPiecesA : WAnyPA → List Piece
   | .work m => modPA m
-  | .leaf lf => leafPU lf
+  | .leaf lf => leafPX lf
 
 def filePA (n : Text.WNet) (m : WModPA) : List Piece :=
   [.self "//Generated from netlist by SpyDrNet\n" "//Generated from netlist by SpyDrNet",
@@ -175,13 +255,13 @@ theorem chars_filePHA (n : Text.WNet) (m : WModPA) (Ps : List WAnyPA) :
     intro P _
     cases P with
     | work m' => exact chars_modPA m'
-    | leaf lf => exact chars_leafPU lf
+    | leaf lf => exact chars_leafPX lf
   rw [this]
   simp [String.toList_append, toList_join, List.flatMap, Function.comp_def, List.append_assoc]
 
 def anyDirOKA : WAnyPA → Prop
   | .work m => ∀ p ∈ m.base.ports, p.dir ≠ .undef
-  | .leaf lf => ∀ p ∈ lf.ports, p.attrs = []
+  | .leaf lf => ∀ p ∈ lf.base.ports, p.attrs = []
 
 theorem filter_clean (ts : List String) (h : cleanToks ts = true) : ts.filter notC = ts := by
   apply List.filter_eq_self.mpr
@@ -215,8 +295,8 @@ theorem toks_filePHA (n : Text.WNet) (m : WModPA) (Ps : List WAnyPA) (hd : ∀ p
         exact filter_clean _ hPo.2
       | leaf lf =>
         simp only [Function.comp, anyPiecesA, WAnyPA.toAny, anyToksA]
-        rw [toks_leafPU lf hPd]
-        exact leafToksU_filter lf hPo
+        rw [toks_leafPX lf hPd]
+        exact leafToksXU_filter lf hPo
   have h3 : (filePHA n m Ps).flatMap Piece.toks = ptoks (filePA n m) ++ ptoks ((Ps.map anyPiecesA).flatten) :=
     ptoks_append _ _
   have h4 : ptoks (filePA n m) =
